@@ -428,6 +428,14 @@ def opaque_pairs(ctx: Ctx) -> None:
         def forward(self, x):
             return torch.tanh(x.sum(-1, keepdim=True)) + 0.25 * x[..., :1]
 
+    class PartialNet(torch.nn.Module):
+        # a model that gives NO finite hedge ratio at some steps (nan where the moneyness is high, inf where the first input is exactly 1):
+        # whatever the hedger makes of an undefined ratio at step t, the positions of the EARLIER steps do not depend on it
+        def forward(self, x):
+            y = torch.tanh(x.sum(-1, keepdim=True))
+            y = torch.where(x[..., :1] >= 1.5, torch.full_like(y, float("nan")), y)
+            return torch.where(x[..., :1] == 1.0, torch.full_like(y, float("inf")), y)
+
     class CausalNet(torch.nn.Module):
         def forward(self, x):
             return torch.tanh(x.sum(-1, keepdim=True).cumsum(-2) / 4)
@@ -446,7 +454,7 @@ def opaque_pairs(ctx: Ctx) -> None:
     for T, ps in byT.items():
         dtype = torch.float64
         cut = torch.tensor([r["cut"] for r in ps])
-        models = ["bs", "ww", "naked", "mlp", "mlp_prev", "user", "user_causal", "barrier_prev", "shared_extractor"]
+        models = ["bs", "ww", "naked", "mlp", "mlp_prev", "user", "user_causal", "barrier_prev", "shared_extractor", "user_partial", "user_partial_prev"]
         sa = list(_opaque_setups(ps, "mA", dtype))
         sb = list(_opaque_setups(ps, "mB", dtype))
         for (label, dA), (_, dB) in zip(sa, sb):
@@ -473,6 +481,10 @@ def opaque_pairs(ctx: Ctx) -> None:
                 elif mname == "barrier_prev":      # barrier features evaluated step by step (the state-dependent branch)
                     from pfhedge.features import Barrier
                     model = UserNet(); inputs = [Barrier(0.55), Barrier(0.45, up=False), "moneyness", "prev_hedge"]
+                elif mname == "user_partial":
+                    model = PartialNet(); inputs = ["moneyness", "time_to_maturity"]
+                elif mname == "user_partial_prev":
+                    model = PartialNet(); inputs = ["moneyness", "prev_hedge"]
                 elif mname == "user_causal":
                     # a user module that looks BACK along the time dimension (a running sum, as a recurrent layer would): causal, so
                     # the hedge stays non-anticipating, and the position at the final index is still the one held over the last step
